@@ -206,13 +206,13 @@ theorem Layout.parts_le (L : Layout) : L.dl ≤ L.dim ∧ L.dc ≤ L.dim ∧ L.d
   cases L with
   | mk dl dc q dn => cases q <;> simp [Layout.dim, Layout.dcov, Layout.cc, Layout.tc] <;> omega
 
-/-- one SUKF correction on an object in any state: consistent; the members afterwards are the old ones, the old
-    innovations with new propagated sigma points (innovation failed), or the matching pair of a successful correction -/
+/-- one SUKF correction on an object in any state: consistent; afterwards the innovations are empty (the correction failed;
+    the propagated sigma points are the old or the new ones) or the members are the matching pair of a successful correction -/
 theorem sukfStep_ok (mem : SUKFMem) (I : Layout) (K : Nat) (C : Layout) (cK : Nat) (M : MMod) (sub : Nat) (reduced : Bool)
     (hv : sukfValid I K C cK M sub reduced) (hs : sukfSupported I) :
     (sukfStep mem I K C cK M sub reduced).Safe ∧
-    ((sukfStep mem I K C cK M sub reduced).val.1 = mem ∨
-     (sukfStep mem I K C cK M sub reduced).val.1 = { mem with prop := ⟨M.O.dim, (I.dcov * 2 + 1) * K⟩ } ∨
+    ((sukfStep mem I K C cK M sub reduced).val.1 = { mem with inn := ⟨0, 0⟩ } ∨
+     (sukfStep mem I K C cK M sub reduced).val.1 = ⟨⟨0, 0⟩, ⟨M.O.dim, (I.dcov * 2 + 1) * K⟩⟩ ∨
      (sukfStep mem I K C cK M sub reduced).val.1 = ⟨⟨M.O.dim, K⟩, ⟨M.O.dim, (I.dcov * 2 + 1) * K⟩⟩) := by
   obtain ⟨⟨hK, hIn, hId, hC, hcK, hLin, hOn, hOd, hp, hdc, hy⟩, hir, hsub, hrr⟩ := hv
   have hC' := hC.symm
@@ -278,17 +278,20 @@ theorem sukfCorrect_safe (I : Layout) (K : Nat) (C : Layout) (cK : Nat) (M : MMo
 
 /-! ### call sequences on one object -/
 
-theorem ukfSeq_safe (additive : Bool) (I : Layout) (M : MMod) (hs : ukfSupported I M) (steps : List CStep) :
-    ∀ mem : UKFMem, ukfSeqValid additive I M steps → (ukfSeq additive I M mem steps).Safe := by
+theorem ukfSeq_safe (additive : Bool) (I : Layout) (M : MMod) (steps : List CStep) :
+    ∀ mem : UKFMem, ukfSeqValid additive I M steps → (∀ s ∈ steps, ukfSupported I (M.withFlags s)) →
+      (ukfSeq additive I M mem steps).Safe := by
   induction steps with
-  | nil => intro mem _; simp [ukfSeq]
+  | nil => intro mem _ _; simp [ukfSeq]
   | cons s ss ih =>
-    intro mem hv
-    have h := ukfStep_ok additive mem I s.K I s.K (M.withFlags s) (hv s List.mem_cons_self) hs
+    intro mem hv hs
+    have h := ukfStep_ok additive mem I s.K I s.K (M.withFlags s) (hv s List.mem_cons_self) (hs s List.mem_cons_self)
     simp only [ukfSeq, safe_bind, val_bind, safe_pure, and_true]
-    refine ⟨h.1, ukfLik_safe (M.withFlags s) _ h.2, ih _ ?_⟩
-    intro x hx
-    exact hv x (List.mem_cons_of_mem _ hx)
+    refine ⟨h.1, ukfLik_safe (M.withFlags s) _ h.2, ih _ ?_ ?_⟩
+    · intro x hx
+      exact hv x (List.mem_cons_of_mem _ hx)
+    · intro x hx
+      exact hs x (List.mem_cons_of_mem _ hx)
 
 theorem wnaSeq_fold_safe (d : Dim) (nums : List Nat) : ∀ acc : List String,
     (nums.foldlM (fun (acc : List String) n => do
